@@ -41,7 +41,7 @@ const F1_EXCLUDED: bool = false;
 fn f1_present() -> bool {
     static P: OnceLock<bool> = OnceLock::new();
     *P.get_or_init(|| {
-        let mut m = ModuleManager::new();
+        let mut m = crate::core::new_or_default(ModuleManager::new);
         let _ = m.create_module("X");
         let _ = m.import_from("MAIN", "X", ImportType::AllRules, "*");
         let _ = m.delete_module("X");
@@ -896,7 +896,7 @@ pub fn run(s: &mut Src, ctx: &mut Ctx) -> Verdict {
     }
     ctx.describe(|| ops.iter().map(show).collect::<Vec<_>>().join("; "));
 
-    let mut mgr = ModuleManager::new();
+    let mut mgr = crate::core::new_or_default(ModuleManager::new);
     let mut model: Model = [None, None, None, Some(MMod { rules: BTreeSet::new(), exports: Exp::All, decls: Vec::new() })];
     let mut ever_deleted = [false; 4];
     // (importer, module) pairs: module was deleted while importer declared an import from it
@@ -1140,7 +1140,7 @@ pub fn run(s: &mut Src, ctx: &mut Ctx) -> Verdict {
 const DAG_NAMES: [&str; 5] = ["MAIN", "A", "B", "C", "D"];
 
 fn dag_build(n: usize, edges: &[(usize, usize)]) -> Result<ModuleManager, String> {
-    let mut mgr = ModuleManager::new();
+    let mut mgr = crate::core::new_or_default(ModuleManager::new);
     for name in DAG_NAMES.iter().take(n).skip(1) {
         mgr.create_module(*name).map_err(|e| format!("create_module({}): {}", name, e))?;
     }
